@@ -31,10 +31,11 @@ func TMerc(this *SR) (forward, inverse Transformer, err error) {
 				return math.NaN(), math.NaN(), fmt.Errorf("in proj.TMerc forward: b == 0")
 			}
 			x = 0.5 * this.A * this.K0 * math.Log((1+b)/(1-b))
-			con = math.Acos(cos_phi * math.Cos(delta_lon) / math.Sqrt(1-b*b))
-			if lat < 0 {
-				con = -con
-			}
+			// atan2(tan(lat), cos(delta_lon)) is the same angle as
+			// acos(cos_phi*cos(delta_lon)/sqrt(1-b*b)) carrying the sign of lat,
+			// without the loss of precision of acos near 1: on and next to the
+			// equator that form returned NaN or was off by up to 10 cm.
+			con = math.Atan2(math.Tan(lat), math.Cos(delta_lon))
 			y = this.A * this.K0 * (con - this.Lat0)
 
 		} else {
